@@ -28,6 +28,7 @@ import (
 	"sort"
 	"strconv"
 	"strings"
+	"time"
 
 	"github.com/tsawler/tabula"
 	"github.com/tsawler/tabula/contentstream"
@@ -69,6 +70,9 @@ func firstFrames(st string) string {
 	var keep []string
 	for _, l := range strings.Split(st, "\n") {
 		if strings.HasPrefix(l, "github.com/tsawler/tabula") {
+			if i := strings.LastIndex(l, "("); i > 0 {
+				l = l[:i] // drop the argument words (addresses differ between processes)
+			}
 			keep = append(keep, l)
 			if len(keep) == 3 {
 				break
@@ -141,11 +145,12 @@ func operations() []operation {
 // ---- child protocol --------------------------------------------------------------------------------
 
 type childOut struct {
-	Hashes     []string `json:"hashes"`
-	States     []string `json:"states"`
-	Outputs    []string `json:"outputs,omitempty"`
-	MapSites   []int    `json:"map_sites,omitempty"`
-	YieldSites []int    `json:"yield_sites,omitempty"`
+	Hashes     []string  `json:"hashes"`
+	States     []string  `json:"states"`
+	Outputs    []string  `json:"outputs,omitempty"`
+	MapSites   []int     `json:"map_sites,omitempty"`
+	MapNames   []string  `json:"map_names,omitempty"`
+	YieldSites []int     `json:"yield_sites,omitempty"`
 	Sched      *schedOut `json:"sched,omitempty"`
 }
 
@@ -178,6 +183,9 @@ func child(args []string) {
 			out.MapSites = append(out.MapSites, s)
 		}
 		sort.Ints(out.MapSites)
+		for _, s := range out.MapSites {
+			out.MapNames = append(out.MapNames, siteName(s))
+		}
 	case "sched": // child sched i,j[,k] bound
 		var idx []int
 		for _, is := range strings.Split(args[1], ",") {
@@ -285,10 +293,14 @@ func exploreSchedules(dir string, ops []operation, idx []int, bound int) *schedO
 	}
 	sites := map[int]bool{}
 	outcomes := map[string]bool{}
-	const cap = 400000
+	cap := 30000
+	if os.Getenv("VERIF_C03_THOROUGH") != "" {
+		cap = 400000
+	}
+	started := time.Now()
 	var explore func(prefix []int)
 	explore = func(prefix []int) {
-		if res.Schedules >= cap {
+		if res.Schedules >= cap || time.Since(started) > 4*time.Minute || (res.Violating > 0 && res.Schedules >= 2000) {
 			res.Capped = true
 			return
 		}
@@ -354,6 +366,9 @@ func runChild(dir string, args ...string) (*childOut, error) {
 	self, _ := os.Executable()
 	cmd := exec.Command(self, append([]string{"child"}, args...)...)
 	cmd.Env = append(os.Environ(), "VERIF_C03_DIR="+dir, "GOMAXPROCS=2")
+	if thoroughTier {
+		cmd.Env = append(cmd.Env, "VERIF_C03_THOROUGH=1")
+	}
 	b, err := cmd.Output()
 	if err != nil {
 		msg := ""
@@ -377,7 +392,12 @@ func joinInts(a []int) string {
 	return strings.Join(s, ",")
 }
 
+var thoroughTier bool
+
 func run(e *harness.Env) {
+	thoroughTier = e.Thorough()
+	e.Track = true
+	e.CaseDeadline = 15 * time.Minute
 	e.Rule = "hist: all operation sequences up to length 2 (quick) / 3 (thorough) over the operation alphabet (documents of every format x {Text, ToMarkdown, Chunks->JSONL, Chunks->CSV}, raw content-stream parses incl. one ending mid-operand and one failing, HTML strings), " +
 		"one fresh process per sequence, state key = dump of the mutable package-level variables found by the instrumenter; order: per operation all assignments of {asc,desc,rotated} to reached map-range sites with <=2/3 deviating sites; " +
 		"sched: 2- and 3-thread scenarios, all interleavings with <=2/3 preemptions at instrumented yield points. distinct = descriptors; non-trivial = sequences of length>=2, any deviating order, any schedule exploration"
@@ -470,10 +490,8 @@ func run(e *harness.Env) {
 						e.Add("transitions", int64(len(seq)))
 						e.Add("traces_validated_against_impl", 1)
 						for _, s := range out.States {
-							if !states[s] {
-								states[s] = true
-								e.Add("states", 1)
-							}
+							states[s] = true
+							e.AddSet("states", s)
 						}
 						_ = baseState
 						if bad >= 0 {
@@ -568,7 +586,7 @@ func run(e *harness.Env) {
 		{"raw:pending-operands", "raw:fails"},
 		{"raw:complete", "raw:pending-operands", "raw:fails"},
 		{"a.pdf:Text", "pending.pdf:Text"},
-		{"a.pdf:Text", "pending.pdf:Text", "raw:complete"},
+		{"pending.pdf:Text", "broken.pdf:Text", "raw:complete"},
 		{"html-string:Text", "html-string:ToMarkdown"},
 		{"a.pdf:Chunks.CSV", "a.docx:Chunks.JSONL"},
 		{"a.html:Text", "html-string:Text", "a.pdf:ToMarkdown"},
@@ -597,7 +615,7 @@ func run(e *harness.Env) {
 		e.Add("transitions", int64(s.Schedules))
 		e.Max("max_scheduling_points_in_one_execution", int64(s.MaxPoints))
 		e.Note("yield_sites_reached:"+strings.Join(sc, "|"), strings.Join(s.YieldSites, " "))
-		if s.Capped {
+		if s.Capped && s.Violating == 0 {
 			e.Incomplete("schedule cap reached in scenario " + strings.Join(sc, "|"))
 		}
 		if s.Diverged != "" {
